@@ -16,6 +16,8 @@ Oracle   invariant over the read history, observed through a tracking stream:
 
 import itertools
 
+import os
+
 from hypothesis import strategies as st
 
 from vp import core
@@ -46,7 +48,7 @@ TINY_OPTS = [
 
 def floors(tier):
     return {"tiny": 2000000, "garbage": 3000, "items=0": 1000, "items=1": 1000, "items>=2": 500,
-            "has-d3-00-00": 1000, "trailing-bytes-outside-items": 1000}
+            "has-d3-00-00": 1000, "short-reads": 800, "trailing-bytes-outside-items": 1000}
 
 
 def plan(tier, seed):
@@ -59,6 +61,9 @@ def plan(tier, seed):
                           "alpha": list(alpha), "short": a == 0 and b == 0})
     for i in range(16):
         specs.append({"what": "garbage", "part": i})
+    if tier == "thorough":
+        for i in range(16):
+            specs.append({"what": "atheris", "part": i, "corpus": "valid" if i % 4 else "empty"})
     return specs
 
 
@@ -66,9 +71,9 @@ def _noop(err):
     return None
 
 
-def judge(data: bytes, opts):
+def judge(data: bytes, opts, bursts=None):
     """-> (viol list, nitems, truncated?)"""
-    ts = S.TrackingStream(data)
+    ts = S.TrackingStream(data, bursts)
     rd = S.mk_reader(ts, opts, _noop if opts.get("quitonerror") == 1 else None)
     prev_end = 0
     nitems = 0
@@ -110,8 +115,10 @@ def judge(data: bytes, opts):
 
 def check(case) -> core.Out:
     data, opts = bytes(case["data"]) if "data" in case else streams.stream_bytes(case["items"]), dict(case["opts"])
-    viol, nitems, trunc = judge(data, opts)
+    viol, nitems, trunc = judge(data, opts, case.get("bursts"))
     classes = ["garbage", "items=0" if nitems == 0 else ("items=1" if nitems == 1 else "items>=2")]
+    if case.get("bursts"):
+        classes.append("short-reads")
     if b"\xd3\x00\x00" in data:
         classes.append("has-d3-00-00")
     if trunc is True:
@@ -136,9 +143,15 @@ GOPTS = st.fixed_dictionaries({
 
 def run_shard(spec, ctx, acc):
     known = set(ctx["known"])
+    if spec["what"] == "atheris":
+        run_atheris(spec, ctx, acc)
+        return
     if spec["what"] == "garbage":
-        strat = st.tuples(streams.garbage_streams(), GOPTS).map(
-            lambda t: {"kind": "garbage", "data": streams.stream_bytes(t[0]), "opts": t[1]})
+        # a third of the streams are delivered in bursts (reads may come back short,
+        # like a serial port with a timeout); the rest as one block
+        bursts = st.one_of(st.none(), st.none(), st.lists(st.integers(1, 40), min_size=1, max_size=30))
+        strat = st.tuples(st.one_of(streams.garbage_streams(), streams.clean_streams(1, 5)), GOPTS, bursts).map(
+            lambda t: {"kind": "garbage", "data": streams.stream_bytes(t[0]), "opts": t[1], "bursts": t[2]})
         core.hyp_search(acc, strat, check, seed=core.derive(ctx["seed"], PROP, "g", spec["part"]),
                         max_examples=300 if ctx["tier"] == "quick" else 8000, known=known, rounds=3)
         return
@@ -180,3 +193,32 @@ def run_shard(spec, ctx, acc):
     if len(acc.samples) < 1:
         acc.samples.append(core.jenc({"tiny_prefix": prefix, "max_len": spec["maxlen"], "alphabet": alpha,
                                       "streams_x_configs": counts["tiny"]}))
+
+
+def run_atheris(spec, ctx, acc):
+    """Coverage-guided campaign (thorough tier): the oracle of this module runs
+    inside the fuzz target; each new violation key is saved with its input."""
+    from vp.fuzz import driver
+
+    try:
+        core.ensure_deps(("atheris",))
+    except core.HarnessError as err:
+        acc.errors.append(f"atheris unavailable: {err}")
+        return
+    runs = int(os.environ.get("VP_FUZZ_RUNS", "200000"))
+    stats, viols, err, ncorpus = driver.run_campaign(
+        PROP, f"shard{spec['part']}", core.derive(ctx["seed"], PROP, "atheris", spec["part"]), runs,
+        spec["corpus"], set(ctx["known"]))
+    if err:
+        acc.errors.append(err)
+    n = stats.get("runs", 0)
+    acc.evaluations += n
+    acc.nontrivial_extra += stats.get("nontrivial", 0)  # coverage-guided inputs; duplicates possible
+    acc.classes["atheris-runs"] += n
+    acc.classes[f"atheris-corpus={spec['corpus']}"] += n
+    acc.extra.setdefault("atheris", {})[f"shard{spec['part']}"] = dict(stats, corpus=spec["corpus"], final_corpus=ncorpus)
+    if stats.get("known_hits"):
+        acc.known_hits["(atheris) listed findings"] += stats["known_hits"]
+    for v in viols:
+        if not any(x["key"] == v["key"] for x in acc.violations):
+            acc.violations.append({"key": v["key"], "case": v["case"], "detail": v["detail"]})
